@@ -17,10 +17,10 @@ All loops are written with explicit fuel; `none` means "the C loop does not leav
 iterations" (the C code has no bound: it spins).  The buffer size (`BUFSZ`, 262144 in both C files) is a
 parameter.
 
-The *main* definitions mirror the tree with `fixes/C15-xfrm-flush-eof.patch` applied (the backends keep calling
-the library while a `FLUSH_FULL` is pending and report a decoder that is cut off in mid-member); the code
-as it is without the patch is `Sqfs/Witness/C15.lean`.  `istream.c` / `ostream.c` are not touched by the
-patch: their model is the same for both.
+The definitions mirror the **current** tree of /repo (after fix commits `8eb5186` — the backends keep calling the library
+while a `FLUSH_FULL` is pending and report a decoder that is cut off in mid-member — and `7b3a56e` — gzip: every zlib
+error is a stream error).  The loops as they were before are `Sqfs/Model/XfrmOld.lean`, kept for `Sqfs/Witness/C15.lean`.
+`istream.c` / `ostream.c` were not touched by those commits.
 -/
 import Sqfs.Generated.Consts
 namespace Sqfs.Xfrm
@@ -264,6 +264,174 @@ def iRead {σ : Type} (C : Codec σ) (bufsz fuel : Nat) : IState σ → List (Na
         | none => some (.error 0)                                      -- unreachable: n ≤ size
         | some st2 => iRead C bufsz fuel st2 ops (acc ++ vis.take n)
 
+/-! ## the same wrappers over wrapped streams that can **fail**
+
+`flush_inbuf` returns what `wrapped->append` returns (`if (ioret) return ioret;`), `xfrm_flush` what `wrapped->flush` returns,
+`precache` what `wrapped->get_buffered_data` returns when negative (`if (ret < 0) return ret;`).  The functions below are the
+functions above with that failure path; they are the ones the correspondence check runs (ops `ostreamx`, `istreamx`), and
+`Sqfs/Proofs/XfrmIoErr.lean` shows that without a failure they **are** the functions above, so the theorems apply to them.
+-/
+
+/-- the `k`-th call (counted from 0) fails with the non-zero code `e` -/
+def failCode (f : Option (Nat × Int)) (k : Nat) : Option Int :=
+  match f with
+  | some (kf, e) => if kf = k ∧ e ≠ 0 then some e else none
+  | none => none
+
+/-- behaviour of the wrapped output stream: which `append` / `flush` call fails, with which code (nothing is stored by a
+failing `append`) -/
+structure OEnv where
+  appendFail : Option (Nat × Int) := none
+  flushFail : Option (Nat × Int) := none
+
+def OEnv.good : OEnv := {}
+
+/-- an error: the code that is returned, and what the wrapped stream holds at that moment -/
+abbrev OutcomeE (α : Type) := Option (Except (Int × Bytes) α)
+
+/-- loop state of `flush_inbuf` plus the number of `wrapped->append` calls made so far -/
+abbrev FlushStE (σ : Type) := σ × Bytes × Bytes × Nat
+
+def flushBodyE {σ : Type} (C : Codec σ) (bufsz : Nat) (E : OEnv) (finish : Bool) :
+    FlushStE σ → LoopStep (FlushStE σ) (Except (Int × Bytes) (FlushStE σ))
+  | (cs, rest, sink, k) =>
+    if finish || decide (0 < rest.length) then
+      let r := C.step cs rest bufsz (if finish then Flush.full else Flush.none)
+      if r.res = Res.error then LoopStep.done (.error (errCompressor, sink))
+      else
+        match failCode E.appendFail k with
+        | some e => LoopStep.done (.error (e, sink))                             -- `if (ioret) return ioret;`
+        | none =>
+          if r.res = Res.streamEnd then LoopStep.done (.ok (r.st, rest.drop r.consumed, sink ++ r.out, k + 1))
+          else LoopStep.next (r.st, rest.drop r.consumed, sink ++ r.out, k + 1)
+    else LoopStep.done (.ok (cs, rest, sink, k))
+
+/-- `ostream_xfrm_t` and the number of `wrapped->append` calls so far -/
+structure OStateE (σ : Type) where
+  st : OState σ
+  appends : Nat
+
+def flushInbufE {σ : Type} (C : Codec σ) (bufsz fuel : Nat) (E : OEnv) (s : OStateE σ) (finish : Bool) : OutcomeE (OStateE σ) :=
+  match iter (flushBodyE C bufsz E finish) fuel (s.st.cs, s.st.inbuf, s.st.sink, s.appends) with
+  | none => none
+  | some (.error e) => some (.error e)
+  | some (.ok (cs, rest, sink, k)) => some (.ok ⟨{ s.st with cs := cs, inbuf := rest, sink := sink }, k⟩)
+
+def appendBodyE {σ : Type} (C : Codec σ) (bufsz fuel : Nat) (E : OEnv) :
+    OStateE σ × Bytes → LoopStep (OStateE σ × Bytes) (OutcomeE (OStateE σ))
+  | (s, data) =>
+    if data.length = 0 then LoopStep.done (some (.ok s))
+    else
+      match (if bufsz ≤ s.st.inbuf.length then flushInbufE C bufsz fuel E s false else some (.ok s)) with
+      | none => LoopStep.done none
+      | some (.error e) => LoopStep.done (some (.error e))
+      | some (.ok s1) =>
+        let diff := min (bufsz - s1.st.inbuf.length) data.length
+        LoopStep.next (⟨{ s1.st with inbuf := s1.st.inbuf ++ data.take diff }, s1.appends⟩, data.drop diff)
+
+def oAppendE {σ : Type} (C : Codec σ) (bufsz fuel : Nat) (E : OEnv) (s : OStateE σ) (data : Bytes) : OutcomeE (OStateE σ) :=
+  match iter (appendBodyE C bufsz fuel E) (data.length + 1) (s, data) with
+  | none => none
+  | some r => r
+
+/-- `xfrm_flush`: `flush_inbuf(finish)` if anything is buffered, then `return wrapped->flush(wrapped)` -/
+def oFlushE {σ : Type} (C : Codec σ) (bufsz fuel : Nat) (E : OEnv) (s : OStateE σ) : OutcomeE (OStateE σ) :=
+  match (if 0 < s.st.inbuf.length then flushInbufE C bufsz fuel E s true else some (.ok s)) with
+  | none => none
+  | some (.error e) => some (.error e)
+  | some (.ok s1) =>
+    match failCode E.flushFail s1.st.flushed with
+    | some e => some (.error (e, s1.st.sink))
+    | none => some (.ok ⟨{ s1.st with flushed := s1.st.flushed + 1 }, s1.appends⟩)
+
+def oRunE {σ : Type} (C : Codec σ) (bufsz fuel : Nat) (E : OEnv) : OStateE σ → List OOp → OutcomeE (OStateE σ)
+  | s, [] => some (.ok s)
+  | s, OOp.append d :: ops =>
+    match oAppendE C bufsz fuel E s d with
+    | some (.ok s') => oRunE C bufsz fuel E s' ops
+    | r => r
+  | s, OOp.flush :: ops =>
+    match oFlushE C bufsz fuel E s with
+    | some (.ok s') => oRunE C bufsz fuel E s' ops
+    | r => r
+
+/-- the wrapped input stream with a failing `get_buffered_data` call: the call number `fail.1` returns `fail.2 < 0` -/
+structure InnerE where
+  inner : Inner
+  calls : Nat
+  fail : Option (Nat × Int)
+
+/-- the negative code the next `get_buffered_data` call returns, if it fails -/
+def InnerE.failNow (i : InnerE) : Option Int :=
+  match i.fail with
+  | some (kf, e) => if kf = i.calls ∧ e < 0 then some e else none
+  | none => none
+
+def precacheBodyE {σ : Type} (C : Codec σ) (bufsz : Nat) :
+    σ × Bytes × InnerE → LoopStep (σ × Bytes × InnerE) (Except Int (σ × Bytes × InnerE))
+  | (cs, buf, ie) =>
+    match ie.failNow with
+    | some e => LoopStep.done (.error e)                                       -- `if (ret < 0) return ret;`
+    | none =>
+      let inner := ie.inner
+      let chunk := inner.peek.1
+      let eof := inner.peek.2.1
+      let mode := if eof then Flush.full else Flush.none
+      let r := C.step cs chunk (bufsz - buf.length) mode
+      if r.res = Res.error then LoopStep.done (.error errCompressor)
+      else
+        let buf' := buf ++ r.out
+        let ie2 : InnerE := { ie with inner := inner.peek.2.2.advance r.consumed, calls := ie.calls + 1 }
+        if r.res = Res.bufferFull || decide (bufsz ≤ buf'.length) then LoopStep.done (.ok (r.st, buf', ie2))
+        else if eof then LoopStep.done (.ok (r.st, buf', ie2))
+        else LoopStep.next (r.st, buf', ie2)
+
+structure IStateE (σ : Type) where
+  cs : σ
+  buf : Bytes
+  off : Nat
+  inner : InnerE
+
+def precacheE {σ : Type} (C : Codec σ) (bufsz fuel : Nat) (st : IStateE σ) : Outcome (IStateE σ) :=
+  match iter (precacheBodyE C bufsz) fuel (st.cs, st.buf.drop st.off, st.inner) with
+  | none => none
+  | some (.error e) => some (.error e)
+  | some (.ok (cs, buf, inner)) => some (.ok { cs := cs, buf := buf, off := 0, inner := inner })
+
+def iGetE {σ : Type} (C : Codec σ) (bufsz fuel : Nat) (st : IStateE σ) (want : Nat) : Outcome (IStateE σ × Bytes × Bool) :=
+  let want := if bufsz < want then bufsz else want
+  match (if st.buf.length = 0 || decide (st.buf.length - st.off < want) then precacheE C bufsz fuel st
+         else some (.ok st)) with
+  | none => none
+  | some (.error e) => some (.error e)
+  | some (.ok st1) =>
+    let vis := st1.buf.drop st1.off
+    some (.ok (st1, vis, vis.length = 0))
+
+def iAdvanceE {σ : Type} (st : IStateE σ) (count : Nat) : Option (IStateE σ) :=
+  if count ≤ st.buf.length ∧ st.off + count ≤ st.buf.length then some { st with off := st.off + count } else none
+
+def iReadE {σ : Type} (C : Codec σ) (bufsz fuel : Nat) : IStateE σ → List (Nat × Nat) → Bytes → Outcome (IStateE σ × Bytes × Bool)
+  | st, [], acc => some (.ok (st, acc, false))
+  | st, (want, take) :: ops, acc =>
+    match iGetE C bufsz fuel st want with
+    | none => none
+    | some (.error e) => some (.error e)
+    | some (.ok (st1, vis, eof)) =>
+      if eof then some (.ok (st1, acc, true))
+      else
+        let n := min take vis.length
+        match iAdvanceE st1 n with
+        | none => some (.error 0)
+        | some st2 => iReadE C bufsz fuel st2 ops (acc ++ vis.take n)
+
+/-- `flush_mode` as the backends read it: `if (flush_mode < 0 || flush_mode >= XFRM_STREAM_FLUSH_COUNT) flush_mode = XFRM_STREAM_FLUSH_NONE;` -/
+def clampFlush (m : Int) : Flush :=
+  if m < 0 ∨ (Sqfs.Consts.xfrmFlushCount : Int) ≤ m then Flush.none
+  else if m = Sqfs.Consts.xfrmFlushSync then Flush.sync
+  else if m = Sqfs.Consts.xfrmFlushFull then Flush.full
+  else Flush.none
+
 /-! ## the backends' `process_data` loops over an abstract library stream -/
 
 /-- return codes of the library call, as far as the wrappers distinguish them -/
@@ -298,7 +466,7 @@ inductive Backend where
   | gzip | xz | bzip2
   deriving DecidableEq, Repr, Inhabited
 
-/-- does the wrapper turn this library code into `XFRM_STREAM_ERROR`?  (tree with the patch applied) -/
+/-- does the wrapper turn this library code into `XFRM_STREAM_ERROR`? -/
 def isLibError (b : Backend) (r : LibRet) : Bool :=
   match b, r with
   | _, LibRet.dataError => true      -- gzip.c: `ret != Z_OK && ret != Z_STREAM_END && ret != Z_BUF_ERROR`; xz.c; bzip2.c `ret < 0`
@@ -309,7 +477,7 @@ def isLibError (b : Backend) (r : LibRet) : Bool :=
 abbrev WrapSt (τ : Type) := τ × Bytes × Nat × Nat × Bytes
 
 /--
-One round of the common loop of `gzip.c`, `xz.c`, `bzip2.c` (`process_data`), **with the patch**:
+One round of the common loop of `gzip.c`, `xz.c`, `bzip2.c` (`process_data`):
 `while ((in_size > 0 || flush_mode == XFRM_STREAM_FLUSH_FULL) && out_size > 0)`.
 -/
 def wrapBody {τ : Type} (L : Lib τ) (b : Backend) (compress : Bool) (fl : Flush) :
@@ -365,7 +533,7 @@ structure ZLib (τ : Type) where
   init : τ
   call : τ → Bytes → Nat → Flush → ZOut τ
 
-/-- `xfrm_zstd_t`: the library context and the `pending` flag added by the patch -/
+/-- `xfrm_zstd_t`: the library context and the `pending` flag -/
 structure ZState (τ : Type) where
   lib : τ
   pending : Bool
@@ -374,7 +542,7 @@ structure ZState (τ : Type) where
 /-- loop state of zstd's `process_data` -/
 abbrev ZWrapSt (τ : Type) := ZState τ × Bytes × Nat × Nat × Bytes
 
-/-- one round of the `zstd.c: process_data` loop, **with the patch**; result: final loop state and "error" -/
+/-- one round of the `zstd.c: process_data` loop; result: final loop state and "error" -/
 def zstdBody {τ : Type} (L : ZLib τ) (compress : Bool) (fl : Flush) :
     ZWrapSt τ → LoopStep (ZWrapSt τ) (ZWrapSt τ × Bool)
   | (st, inp, room, ai, ao) =>
